@@ -47,4 +47,110 @@ theorem sinceE_snoc (c : Cfg) (E : List (Nat × Nat)) (p : Nat × Nat) (w : Nat)
 
 theorem sinceE_nil (c : Cfg) (w : Nat) : sinceE c [] w = 0 := rfl
 
+/-- `E` split at the last pair of `w`. -/
+theorem since_decomp (c : Cfg) (E : List (Nat × Nat)) (w : Nat) :
+    (∃ A j T, E = A ++ (w, j) :: T ∧ (∀ p ∈ T, p.1 ≠ w) ∧ sinceE c E w ≤ T.length) ∨
+    ((∀ p ∈ E, p.1 ≠ w) ∧ sinceE c E w ≤ E.length) := by
+  induction E using snoc_induction with
+  | nil => exact Or.inr ⟨(fun p hp => by cases hp), by simp [sinceE_nil]⟩
+  | snoc E p ih =>
+    rw [sinceE_snoc]
+    by_cases hp : p.1 = w
+    · left
+      refine ⟨E, p.2, [], ?_, (fun q hq => by cases hq), by simp [hp]⟩
+      rw [← hp]
+    · simp only [hp, if_false]
+      have h1 : (if isD c p = true then 1 else 0) ≤ 1 := by split <;> omega
+      rcases ih with ⟨A, j, T, hE, hT, hs⟩ | ⟨hE, hs⟩
+      · left
+        refine ⟨A, j, T ++ [p], by rw [hE]; simp, ?_, by simp; omega⟩
+        intro q hq
+        rcases List.mem_append.mp hq with h | h
+        · exact hT q h
+        · simp at h; subst h; exact hp
+      · right
+        refine ⟨?_, by simp; omega⟩
+        intro q hq
+        rcases List.mem_append.mp hq with h | h
+        · exact hE q h
+        · simp at h; subst h; exact hp
+
+theorem sorted_len (W : Nat) (l : List (Nat × Nat)) (lo hi : Nat) (hs : Sorted W l)
+    (hb : ∀ p ∈ l, lo ≤ sig W p ∧ sig W p < hi) : l.length + lo ≤ hi ∨ l = [] := by
+  induction l generalizing lo with
+  | nil => exact Or.inr rfl
+  | cons p r ih =>
+    left
+    unfold Sorted at hs
+    rw [List.pairwise_cons] at hs
+    have hp := hb p (List.mem_cons_self ..)
+    rcases ih (sig W p + 1) hs.2 (fun q hq => ⟨hs.1 q hq, (hb q (List.mem_cons_of_mem _ hq)).2⟩) with h | h
+    · simp only [List.length_cons]; omega
+    · subst h; simp; omega
+
+theorem endE_false (c : Cfg) (E : List (Nat × Nat)) (w : Nat) (h : endE c E w = false) :
+    (w, bOf c w) ∉ E := by
+  intro hm
+  have : endE c E w = true := by
+    simp only [endE, List.any_eq_true]
+    exact ⟨_, hm, by simp⟩
+  rw [h] at this; cases this
+
+/-- **Round-robin bound.**  As long as the end-of-shard pair of `w` has not been consumed, fewer than `W`
+data pairs have been consumed since `w`'s last pair. -/
+theorem since_lt (c : Cfg) (E R : List (Nat × Nat)) (w : Nat) (hE : E ++ R = liveFrom c 0 0) (hw : w < c.W)
+    (hend : endE c E w = false) : sinceE c E w + 1 ≤ c.W := by
+  have hsort := live0_sorted c
+  rw [← hE] at hsort
+  have hnot := endE_false c E w hend
+  rcases since_decomp c E w with ⟨A, j, T, hA, hT, hs⟩ | ⟨hno, hs⟩
+  · subst hA
+    have hmem : (w, j) ∈ liveFrom c 0 0 := by rw [← hE]; simp
+    have hj := ((mem_live0 c _).mp hmem).2
+    simp only at hj
+    have hjne : j ≠ bOf c w := fun h => hnot (by rw [← h]; simp)
+    have hnext : (w, j + 1) ∈ liveFrom c 0 0 := (mem_live0 c _).mpr ⟨hw, by simp only; omega⟩
+    rw [← hE] at hnext
+    unfold Sorted at hsort
+    rw [List.append_assoc, List.pairwise_append] at hsort
+    obtain ⟨_, h2, h3⟩ := hsort
+    -- h2 : ((w,j) :: T ++ R) sorted
+    rw [List.cons_append, List.pairwise_cons, List.pairwise_append] at h2
+    obtain ⟨h4, h5, _, h7⟩ := h2
+    have hR : (w, j + 1) ∈ R := by
+      simp only [List.mem_append, List.mem_cons] at hnext
+      rcases hnext with (h | h | h) | h
+      · have := h3 _ h (w, j) (by simp)
+        simp only [sig] at this
+        have : j * c.W ≤ (j + 1) * c.W := Nat.mul_le_mul_right _ (by omega)
+        omega
+      · simp at h
+      · exact absurd rfl (hT _ h)
+      · exact h
+    have hb : ∀ p ∈ T, sig c.W (w, j) + 1 ≤ sig c.W p ∧ sig c.W p < sig c.W (w, j + 1) := by
+      intro p hp
+      exact ⟨h4 p (List.mem_append_left _ hp), h7 p hp _ hR⟩
+    have hsig : sig c.W (w, j + 1) = sig c.W (w, j) + c.W := by
+      simp only [sig, Nat.add_mul, Nat.one_mul]; omega
+    rcases sorted_len c.W T _ _ h5 hb with h | h
+    · omega
+    · subst h; simp at hs; omega
+  · have h0 : (w, 0) ∈ liveFrom c 0 0 := (mem_live0 c _).mpr ⟨hw, Nat.zero_le _⟩
+    rw [← hE] at h0
+    have hR : (w, 0) ∈ R := by
+      rcases List.mem_append.mp h0 with h | h
+      · exact absurd rfl (hno _ h)
+      · exact h
+    unfold Sorted at hsort
+    rw [List.pairwise_append] at hsort
+    obtain ⟨h1, _, h3⟩ := hsort
+    have hb : ∀ p ∈ E, 0 ≤ sig c.W p ∧ sig c.W p < w := by
+      intro p hp
+      have := h3 p hp _ hR
+      simp only [sig] at this ⊢
+      omega
+    rcases sorted_len c.W E 0 w h1 hb with h | h
+    · omega
+    · subst h; simp at hs; omega
+
 end TDV.MPRI
